@@ -344,7 +344,31 @@ impl Out {
     /// an implementation-side oracle failed: the property is violated on the real code
     pub fn oracle_fail(&mut self, what: &str, detail: &str) {
         self.n_oracle_fail += 1;
-        let case = self.cur_case.join("\n");
+        // bounded records: an enumeration case can hold tens of thousands of ops and a trace can be very long; a run
+        // with thousands of (known) failures must not write gigabytes. Kept: the first 3 and the last 40 ops of the
+        // case (the failing op is the latest one), 4 KB of detail; after 3000 failures only `what` and a short detail.
+        let clipped = |s: &str, n: usize| -> String {
+            if s.len() <= n {
+                s.to_string()
+            } else {
+                let mut k = n;
+                while !s.is_char_boundary(k) {
+                    k -= 1;
+                }
+                format!("{}… [{} bytes cut]", &s[..k], s.len() - k)
+            }
+        };
+        let detail = &clipped(detail, if self.n_oracle_fail > 3000 { 300 } else { 4096 });
+        let case = if self.n_oracle_fail > 3000 {
+            self.cur_case.last().map(|l| clipped(l, 2000)).unwrap_or_default()
+        } else if self.cur_case.len() > 45 {
+            let mut v: Vec<String> = self.cur_case[..3].iter().map(|l| clipped(l, 20_000)).collect();
+            v.push(format!("# … {} ops of this case left out …", self.cur_case.len() - 43));
+            v.extend(self.cur_case[self.cur_case.len() - 40..].iter().map(|l| clipped(l, 20_000)));
+            v.join("\n")
+        } else {
+            self.cur_case.iter().map(|l| clipped(l, 20_000)).collect::<Vec<_>>().join("\n")
+        };
         writeln!(
             self.oracle,
             "{{\"case\":{},\"what\":{},\"detail\":{},\"ops\":{}}}",
